@@ -1,6 +1,6 @@
 (* Props/C03.v -- C03: ciphertext integrity.  Statements only. *)
 From Rpgp Require Import Base.Octets Base.Res Aead.Seipd2 Aead.Seipd2Proofs Aead.Seipd2Integrity
-  Sym.Cfb Sym.CfbProofs.
+  Sym.Cfb Sym.CfbProofs Sym.Seipd1Machine Sym.Seipd1MachineProofs.
 
 (* ---------------- SEIPD v2 ---------------- *)
 
@@ -109,4 +109,42 @@ Proof. vm_compute. reflexivity. Qed.
 Example C03_ex_v1 :
   seipd1_dec (fun x => repeat x5a 8) 8 (fun x => repeat x11 20)
     (seipd1_enc (fun x => repeat x5a 8) 8 (fun x => repeat x11 20) (repeat x07 10) [x61; x62; x63]) = Ok [x61; x62; x63].
+Proof. vm_compute. reflexivity. Qed.
+
+(* the stream decryptor as the machine the code is (octet-wise CFB decryptor, 8192-octet
+   buffer, 22 octets held back, consumer requests of any sizes): what it hands out and
+   how it ends is the specification above, for every sequence of request sizes *)
+Theorem C03_v1_bufdecryptor_is_cfb :
+  forall E bs, 1 <= bs -> (forall x, lenN (E x) = bs) ->
+    forall iv c, snd (bd_run E bs (bd_init E iv) c) = cfb_dec E bs iv c.
+Proof. exact bd_run_is_cfb_dec. Qed.
+Print Assumptions C03_v1_bufdecryptor_is_cfb.
+
+Theorem C03_v1_stream_machine_is_spec :
+  forall E bs sha1, 1 <= bs -> (forall x, lenN (E x) = bs) ->
+    forall (req : N -> N) ct,
+      run_machine E bs sha1 None req ct =
+      (fst (seipd1_streaming E bs sha1 ct), oc_of (snd (seipd1_streaming E bs sha1 ct))).
+Proof. exact machine_streaming. Qed.
+Print Assumptions C03_v1_stream_machine_is_spec.
+
+Theorem C03_v1_checkfirst_machine_is_spec :
+  forall E bs sha1, 1 <= bs -> (forall x, lenN (E x) = bs) ->
+    forall max (req : N -> N) ct,
+      run_machine E bs sha1 (Some max) req ct =
+      (fst (seipd1_checkfirst E bs sha1 max ct), oc_of (snd (seipd1_checkfirst E bs sha1 max ct))).
+Proof. exact machine_checkfirst. Qed.
+Print Assumptions C03_v1_checkfirst_machine_is_spec.
+
+(* so: a clean end of the machine, in either mode and under any requests, means the MDC checked *)
+Theorem C03_v1_machine_clean_end_means_mdc_checked :
+  forall E bs sha1, 1 <= bs -> (forall x, lenN (E x) = bs) ->
+    forall mode (req : N -> N) ct out,
+      run_machine E bs sha1 mode req ct = (out, Clean) -> seipd1_dec E bs sha1 ct = Ok out.
+Proof. exact machine_clean_end. Qed.
+Print Assumptions C03_v1_machine_clean_end_means_mdc_checked.
+
+Example C03_ex_v1_machine :
+  run_machine (fun x => repeat x5a 8) 8 (fun x => repeat x11 20) None (fun i => i)
+    (seipd1_enc (fun x => repeat x5a 8) 8 (fun x => repeat x11 20) (repeat x07 10) [x61; x62; x63]) = ([x61; x62; x63], Clean).
 Proof. vm_compute. reflexivity. Qed.
